@@ -75,7 +75,45 @@ def run(tier):
         diff = sorted((spec_adm ^ real_adm))
         for e in diff[:10]:
             chk.violation('python:rejection-predicate:m=%d:dom=%d' % (e[0], e[2]), 'compiler %s month=%d dow=%d dom=%d, the specification says the opposite' % ('admits' if e in real_adm else 'rejects', e[0], e[1], e[2]), {'expr': e})
-        chk.add(python_rows=p['n'], on_strings_parsed=p['nparse'], rejection_filter_expressions=p['nexpr'])
+        # calc_day_of_month signals a spill over the year boundary by month 0 / 13 -- on every expression, admitted or not
+        ncon = 0
+        for y, m, dow, dom, rr_ in p['contract']:
+            sres = spec.get((y, m, dow, dom))
+            if sres is None:
+                continue
+            ncon += 1
+            cy, cm, cd, _adm = sres
+            want = [cm, cd] if cy == y else ([0, cd] if cy < y else [13, cd])
+            if rr_ != want:
+                chk.violation('python:calc_day_of_month:contract:m=%d' % m, 'calc_day_of_month(%d, %d, %d, %d) = %s; the calendar says %s (month 0 / 13 = previous / next year)' % (y, m, dow, dom, rr_, want), {'args': [y, m, dow, dom]})
+                break
+        # the UNTIL-day filter removes exactly the eras whose expression leaves the year (and resolves the others correctly)
+        nun = 0
+        for rec in p['until']:
+            if rec[0] == 'exception':
+                chk.violation('python:until-filter:exception', '_create_zones_with_until_day raised %s' % rec[1], {})
+                break
+            zn, y, m, dow, dom, kept, day = rec
+            # the declarative resolution, computed from the day count of the TLC table's own calendar (same formulas as Calendar.tla)
+            import datetime
+            if dom == 0:
+                last = (datetime.date(y + (m == 12), m % 12 + 1, 1) - datetime.timedelta(days=1))
+                d = last - datetime.timedelta(days=(last.isoweekday() - dow) % 7)
+            elif dom > 0:
+                b = datetime.date(y, m, dom) if dom <= ((datetime.date(y + (m == 12), m % 12 + 1, 1) - datetime.timedelta(days=1)).day) else None
+                d = b + datetime.timedelta(days=(dow - b.isoweekday()) % 7) if b else None
+            else:
+                b = datetime.date(y, m, -dom)
+                d = b - datetime.timedelta(days=(b.isoweekday() - dow) % 7)
+            if d is None:
+                continue
+            nun += 1
+            spills = d.year != y
+            if spills and kept:
+                chk.violation('python:until-filter:admits-year-spill:m=%d' % m, 'era with UNTIL %d month %d dow %d dom %d is kept (resolved to day %s) although the expression falls on %s' % (y, m, dow, dom, day, d), {'zone': zn})
+            elif not spills and kept and day != d.day:
+                chk.violation('python:until-filter:wrong-day', 'UNTIL %d month %d dow %d dom %d resolved to day %s, the calendar says %s' % (y, m, dow, dom, day, d), {'zone': zn})
+        chk.add(python_rows=p['n'], on_strings_parsed=p['nparse'], rejection_filter_expressions=p['nexpr'], calc_contract_rows=ncon, until_filter_cases=nun)
     chk.add(states=r.distinct + r2.distinct, transitions=r.generated + r2.generated, traces_validated_against_impl=ncpp,
             cpp_cases=ncpp, tlc_table_rows=len(spec), exhaustive=(tier == 'thorough'),
             rule='TLC over years 1873..2126 (step %d) x 12 months x 7 weekdays x every day-of-month expression: definition right, admitted => C++ = Python = definition, spill => rejected; the real calcStartDayOfMonth on the whole admitted space, equal to the TLC table on every 11th year and to the real calc_day_of_month on every row; the real _parse_on_day_string on the ON grammar; the real rejection filter on all 12x7x62 expressions' % (3 if tier == 'quick' else 1))
